@@ -285,7 +285,7 @@ func c04Run(t *testing.T, sc Scenario, res *Result) {
 		res.inc("check_pairs")
 		da, db := runDigest(a), runDigest(b)
 		if da != db {
-			res.violate(sc, "c04/check-twice", "two Checks with the same -rapid.seed in one process differ", map[string]any{"program": p.Desc, "flags": fl, "first": a.tb.brief(), "second": b.tb.brief()})
+			res.violate(sc, "c04/check-twice", "two Checks with the same -rapid.seed in one process differ", map[string]any{"program": p.Desc, "flags": fl, "diff": diffRuns(a, b), "first": a.tb.brief(), "second": b.tb.brief()})
 		}
 		res.digest(fmt.Sprintf("check/%x", sc.Seed), da)
 		res.nontrivial(fmt.Sprintf("check/%x", sc.Seed))
@@ -313,7 +313,8 @@ var rePtr = regexp.MustCompile(`\)\(0x[0-9a-f]+\)`)
 
 func normText(s string) string {
 	s = reTrace.ReplaceAllString(reDur.ReplaceAllString(s, "(T)"), "    <frame>")
-	return rePtr.ReplaceAllString(s, ")(PTR)")
+	s = rePtr.ReplaceAllString(s, ")(PTR)")
+	return reFF.ReplaceAllString(s, `-rapid.failfile="<F>"`) // the file name carries a time stamp and the pid
 }
 
 // runDigest condenses a whole Check: every invocation's draws and ending plus the TB messages (durations removed).
@@ -371,10 +372,17 @@ func c07Run(t *testing.T, sc Scenario, res *Result) {
 	if r.chance(1, 3) {
 		base["rapid.shrinktime"] = "0s"
 	}
+	if r.chance(1, 3) {
+		// with fail files enabled the message has the form -rapid.failfile="..." (or -rapid.seed=N); the file
+		// is removed after every run so that only the seed is exercised
+		base["rapid.nofailfile"] = "false"
+		res.inc("runs_with_failfile_message")
+	}
 	// a run whose minimisation was still going near the 3s limit was cut by the clock: its
 	// minimised result is legitimately not reproducible and is not compared
 	const nearLimit = 1500 * time.Millisecond
 	a := runProgram(p, runOpts{name: "C07", flags: base})
+	os.RemoveAll("testdata")
 	res.inc("runs_A")
 	if a.dur > nearLimit {
 		res.inc("time_cut_not_compared")
@@ -383,6 +391,7 @@ func c07Run(t *testing.T, sc Scenario, res *Result) {
 	if given {
 		// whole-run determinism in one process
 		a2 := runProgram(p, runOpts{name: "C07", flags: base})
+		os.RemoveAll("testdata")
 		if a2.dur > nearLimit {
 			res.inc("time_cut_not_compared")
 			return
@@ -423,6 +432,7 @@ func c07Run(t *testing.T, sc Scenario, res *Result) {
 	res.nontrivial(fmt.Sprintf("%x", sc.Seed))
 	fb := flagsWith(base, "rapid.seed", fmt.Sprint(a.rp.Seed))
 	b := runProgram(p, runOpts{name: "C07", flags: fb})
+	os.RemoveAll("testdata")
 	if b.dur > nearLimit {
 		res.inc("time_cut_not_compared")
 		return
